@@ -1,5 +1,8 @@
 import AffVerif.Proofs.StateSound
 import AffVerif.Proofs.ElimIdem
+import AffVerif.Proofs.CachePrune
+import AffVerif.Proofs.CacheReduce
+import AffVerif.Proofs.CachePlant
 /-!
 Two clauses about cached states that the sweep establishes at every node, as instances of `PT.stSound_elimNode`:
 
@@ -307,5 +310,119 @@ theorem PKids.stSound_allNone (P : List (Aff α) → NState α → Prop) (ks : P
   | .cons none r, h =>
     simp only [PKids.StSound]; exact PKids.stSound_allNone P r path a (l+1) (by simpa [IKids.allNone] using h)
 end
+
+/-! ### pruned composition (any schema, any `explore` filter) -/
+
+mutual
+theorem PT.stSound_composeP {σ : Type} (P : List (Aff α) → NState α → Prop) (hind : ∀ p, P p .indeterminate) (S : Schema α) (ex : Explore σ α) (n : Nat) (path : List (Aff α))
+    (f g : PT α) (s : σ) (c : Nat) (h : PT.StSound P path f) :
+    PT.StSound P path (PT.composeP S ex n path f g s c).1 := by
+  match f with
+  | .node i fc ks =>
+    unfold PT.StSound at h
+    unfold PT.composeP
+    split
+    · rcases PT.graftP_root_cases S ex fc.aff n i fc.state (i == 0) path g s c with hf | ⟨aff', ks', he, hk⟩
+      · exact PT.stSound_of_fresh P hind _ path hf
+      · rw [he]
+        unfold PT.StSound
+        exact ⟨h.1, PKids.stSound_of_fresh P hind ks' path aff' 0 hk⟩
+    · simp only
+      unfold PT.StSound
+      exact ⟨h.1, PKids.stSound_composeP P hind S ex n path fc.aff ks 0 g s c h.2⟩
+theorem PKids.stSound_composeP {σ : Type} (P : List (Aff α) → NState α → Prop) (hind : ∀ p, P p .indeterminate) (S : Schema α) (ex : Explore σ α) (n : Nat)
+    (path : List (Aff α)) (paff : Aff α) (ks : PKids α) (l : Nat) (g : PT α) (s : σ) (c : Nat)
+    (h : PKids.StSound P path paff l ks) :
+    PKids.StSound P path paff l (PKids.composeP S ex n path paff ks l g s c).1 := by
+  match ks with
+  | .nil => simp [PKids.composeP, PKids.StSound]
+  | .cons none r =>
+    simp only [PKids.composeP, PKids.StSound] at h ⊢
+    exact PKids.stSound_composeP P hind S ex n path paff r (l+1) g s c h
+  | .cons (some k) r =>
+    simp only [PKids.composeP, PKids.StSound] at h ⊢
+    exact ⟨PT.stSound_composeP P hind S ex n _ k g s c h.1, PKids.stSound_composeP P hind S ex n path paff r (l+1) g _ _ h.2⟩
+end
+
+/-! ### `reduce` and planted witnesses -/
+
+mutual
+theorem PT.stSound_reduceAux (P : List (Aff α) → NState α → Prop) (hP : StPred P) (isRoot : Bool) (t : PT α) (path : List (Aff α))
+    (h : PT.StSound P path t) : PT.StSound P path (PT.reduceAux isRoot t) := by
+  match t with
+  | .node i c ks =>
+    unfold PT.StSound at h
+    have hk := PKids.stSound_reduceAux P hP ks path c.aff 0 h.2
+    have hnode : PT.StSound P path (.node i c (PKids.reduceAux ks)) := by
+      unfold PT.StSound; exact ⟨h.1, hk⟩
+    unfold PT.reduceAux
+    simp only
+    cases isRoot with
+    | true => simpa using hnode
+    | false =>
+      simp only [Bool.false_eq_true, if_false]
+      cases hm : mergeable? (PKids.reduceAux ks) with
+      | none => simpa using hnode
+      | some a =>
+        simp only
+        obtain ⟨b, hks, _, _, _⟩ := mergeable_spec _ a hm
+        rw [hks] at hk
+        simp only [PKids.StSound] at hk
+        exact PT.stSound_mono P hP a _ path (fun g hg => List.mem_append_left _ hg) hk.1
+theorem PKids.stSound_reduceAux (P : List (Aff α) → NState α → Prop) (hP : StPred P) (ks : PKids α) (path : List (Aff α)) (a : Aff α) (l : Nat)
+    (h : PKids.StSound P path a l ks) : PKids.StSound P path a l (PKids.reduceAux ks) := by
+  match ks with
+  | .nil => simp [PKids.reduceAux, PKids.StSound]
+  | .cons none r =>
+    simp only [PKids.reduceAux, PKids.StSound] at h ⊢
+    exact PKids.stSound_reduceAux P hP r path a (l+1) h
+  | .cons (some k) r =>
+    simp only [PKids.reduceAux, PKids.StSound] at h ⊢
+    exact ⟨PT.stSound_reduceAux P hP false k _ h.1, PKids.stSound_reduceAux P hP r path a (l+1) h.2⟩
+end
+
+
+mutual
+/-- the user appends points to the witness list of a node (`plant`): any clause that survives the append at one state -/
+theorem PT.stSound_plant (P : List (Aff α) → NState α → Prop)
+    (hplant : ∀ path st pts, P path st → P path (NState.plant pts st)) (pts : List (List α)) (path : List (Aff α))
+    (t : PT α) (i : Nat) (h : PT.StSound P path t) : PT.StSound P path (ITree.modifyAt (PT.plantFn pts) t i) := by
+  match t with
+  | .node j c ks =>
+    unfold PT.StSound at h
+    simp only [ITree.modifyAt]
+    split
+    · simp only [PT.plantFn]; unfold PT.StSound
+      exact ⟨hplant _ _ _ h.1, h.2⟩
+    · unfold PT.StSound
+      exact ⟨h.1, PKids.stSound_plant P hplant pts path c.aff 0 ks i h.2⟩
+theorem PKids.stSound_plant (P : List (Aff α) → NState α → Prop)
+    (hplant : ∀ path st pts, P path st → P path (NState.plant pts st)) (pts : List (List α)) (path : List (Aff α))
+    (a : Aff α) (l : Nat) (ks : PKids α) (i : Nat) (h : PKids.StSound P path a l ks) :
+    PKids.StSound P path a l (IKids.modifyAt (PT.plantFn pts) ks i) := by
+  match ks with
+  | .nil => simp only [IKids.modifyAt]; exact h
+  | .cons none r =>
+    simp only [IKids.modifyAt]; unfold PKids.StSound at h ⊢
+    exact PKids.stSound_plant P hplant pts path a (l+1) r i h
+  | .cons (some t) r =>
+    simp only [IKids.modifyAt]; unfold PKids.StSound at h ⊢
+    exact ⟨PT.stSound_plant P hplant pts _ t i h.1, PKids.stSound_plant P hplant pts path a (l+1) r i h.2⟩
+end
+
+theorem stNE_plant (path : List (Aff α)) (st : NState α) (pts : List (List α)) (h : StNE path st) :
+    StNE path (NState.plant pts st) := by
+  cases st with
+  | witness ws =>
+    refine ⟨fun ws' hw => ?_, fun hf => (by simp [NState.plant] at hf)⟩
+    simp only [NState.plant, NState.witness.injEq] at hw
+    subst hw
+    have := h.1 ws rfl
+    cases ws with
+    | nil => exact absurd rfl this
+    | cons w rest => simp
+  | indeterminate => simpa [NState.plant] using h
+  | infeasible => simpa [NState.plant] using h
+  | feasible => simpa [NState.plant] using h
 
 end AV
